@@ -160,7 +160,15 @@ class CallGraph:
             for n in ast.walk(func.node):
                 if isinstance(n, ast.Call) and isinstance(n.func, ast.Name) and n.func.id in ("str", "repr", "format") \
                         and n.args and n.func.id not in locs:
-                    if not isinstance(n.args[0], ast.Constant):
+                    a0 = n.args[0]
+                    is_pos = (isinstance(a0, ast.Name) and a0.id == "pos") or \
+                             (isinstance(a0, ast.Attribute) and a0.attr == "pos")
+                    if is_pos and "SourcePos" in self.model.classes:
+                        # positions are SourcePos objects (or None): only that renderer can run
+                        sp = self.model.classes["SourcePos"].methods.get("__repr__")
+                        if sp is not None:
+                            out.append(Ref("func", sp, n, True, n))
+                    elif not isinstance(a0, ast.Constant):
                         out.append(Ref("dispatch", "__repr__", n, True, n))
                         out.append(Ref("dispatch", "__str__", n, True, n))
                 elif isinstance(n, ast.FormattedValue) and not isinstance(n.value, ast.Constant):
@@ -262,7 +270,7 @@ class CallGraph:
             return cands
         return []
 
-    def reach(self, roots, dispatch_filter=None, stop=None):
+    def reach(self, roots, dispatch_filter=None, stop=None, skip_ref=None):
         """BFS closure over call edges.  Returns {Func: (parent Func, ref)}."""
         seen = {}
         todo = []
@@ -275,6 +283,8 @@ class CallGraph:
             if stop and stop(f):
                 continue
             for ref in self.refs(f):
+                if skip_ref is not None and skip_ref(f, ref):
+                    continue
                 for t in self.targets(f, ref, dispatch_filter):
                     if t not in seen:
                         seen[t] = (f, ref)
